@@ -651,6 +651,15 @@ func c20RunExplore(e *c20ExploreC, step *string) (accepted bool) {
 		return c20RunProv(e, step)
 	case "actions":
 		return c20RunAction(e, step)
+	case "selftest-fatal":
+		// self-test of the worker isolation only (never generated): unrecoverable stack exhaustion
+		if os.Getenv("C20_SELFTEST") == "1" {
+			*step = "selftest: unbounded recursion"
+			var f func(n int) int
+			f = func(n int) int { return f(n+1) + 1 }
+			f(0)
+		}
+		return false
 	case "archive":
 		*step = "loader.LoadArchive"
 		c, err := loader.LoadArchive(bytes.NewReader(e.Data))
